@@ -78,11 +78,19 @@ Theorem C09_explicit_coercible : forall o doc allow vds v,
 Proof. exact explicit_coercible. Qed.
 Print Assumptions C09_explicit_coercible.
 
-(** the configured option value is ignored by [from_config] (known finding) *)
-Theorem C09_config_plumbing_refuted :
-  oo_allow (oopts_from_config false) = true /\
-  let vds := [mkVarDef pos0 (s "b") pos0 (ex_ty "E") None []] in
-  has_type_b (vars_env ex_ms) 40 (variables_type (oopts_from_config false) vds) (VObj []) = Some true
-  /\ explicit_c ex_opts ex_doc false vds (VObj []) = false.
-Proof. exact config_plumbing_refuted. Qed.
-Print Assumptions C09_config_plumbing_refuted.
+(** from the configuration: with [generate.type.allowUndefinedAsOptionalInput] configured as
+    [configured] (absent = on), an assignment that omits something nullable is admitted by the
+    Variables type the CLI generates iff the option is on *)
+Theorem C09_omission_from_config : forall o doc ms configured vds v,
+  wf_schema o doc = true -> namespace_members o doc OpIn = Ok ms -> vars_wf doc vds = true ->
+  explicit_c o doc true vds v = true -> explicit_c o doc false vds v = false ->
+  (In_type (vars_env ms) (variables_type (oopts_from_config configured) vds) v <-> config_allow_undefined configured = true)
+  /\ (NotIn_type (vars_env ms) (variables_type (oopts_from_config configured) vds) v <-> config_allow_undefined configured = false).
+Proof.
+  intros o doc ms configured vds v Hwf Hms Hv Ht Hf. unfold oopts_from_config.
+  destruct (variables_exact_iff o doc ms Hwf Hms (s "Schema") (config_allow_undefined configured) vds v Hv) as [H1 H2].
+  destruct (config_allow_undefined configured).
+  - rewrite Ht in H1, H2. split; [exact H1|]. split; [intros H; apply H2 in H; discriminate|discriminate].
+  - rewrite Hf in H1, H2. split; [|exact H2]. split; [intros H; apply H1 in H; discriminate|discriminate].
+Qed.
+Print Assumptions C09_omission_from_config.
